@@ -1,5 +1,5 @@
 """MIR dumps of /repo's current working tree (content-addressed cache) and Program loading."""
-import os, pickle, shutil, sys
+import os, pickle, re, shutil, sys
 from common import *
 from mirsym import mir as M, enums as E
 
@@ -66,6 +66,20 @@ def program(crate):
     if prog is None:
         prog = M.load(path, REPO, crate)
         prog.src_root = REPO
+        tren = fnroles.type_renames(REPO) if not os.environ.get('VERIF_NO_FNROLES') else {}
+        if tren and any(re.search(r'\b' + re.escape(c) + r'\b', open(path).read()) for c in tren):
+            # crate-private structs recognised (by their field types) as renamed: analyse them under their pinned names
+            tcanon = path + '.tcanon'
+            with open(path) as f:
+                text = f.read()
+            with open(tcanon + '.tmp', 'w') as f:
+                f.write(fnroles.apply_type_renames(text, tren))
+            os.replace(tcanon + '.tmp', tcanon)
+            path = tcanon
+            prog = M.load(path, REPO, crate)
+            prog.type_ren = dict(tren)
+            log(f'[mir] {crate}: renamed private structs recognised by their fields: ' + ', '.join(f'{c} (= pinned {p_})' for c, p_ in tren.items()))
+        prog.src_root = REPO
         ren = fnroles.renames(prog, crate) if not os.environ.get('VERIF_NO_FNROLES') else []
         if ren:
             # crate-private functions recognised (by signature) as renamed: analyse them under their pinned names
@@ -76,6 +90,7 @@ def program(crate):
                 f.write(fnroles.rewrite(text, ren, prog))
             os.replace(canon + '.tmp', canon)
             prog = M.load(canon, REPO, crate)
+            prog.type_ren = dict(tren)
             prog.renamed = [(sc, old, new) for sc, old, new, _ in ren]
             log(f'[mir] {crate}: renamed private functions recognised by signature: ' + ', '.join(f'{old} (= pinned {new})' for _, old, new, _ in ren))
         try:
